@@ -359,6 +359,7 @@ type Unit struct {
 	assumed  map[string]bool
 	deps     map[string]bool
 	fixLen    map[int]int64
+	anchored  map[int]bool
 	names     map[string]int
 	unrollAll int // >0: bounded mode — every loop is unrolled this many times and longer runs are cut off
 }
@@ -502,7 +503,7 @@ func (u *Unit) addObl(name, kind string, guard, goal *Term, pos, desc string) {
 
 func (v *Verifier) newUnit(fn *ssa.Function) *Unit {
 	name := v.prog.names[fn]
-	u := &Unit{v: v, fn: fn, name: name, contract: v.lib.Contracts[name], counters: map[string]int{}, notes: map[string]bool{}, opaque: map[string]bool{}, fuel: map[string]int{}, assumed: map[string]bool{}, deps: map[string]bool{}}
+	u := &Unit{v: v, fn: fn, name: name, contract: v.lib.Contracts[name], counters: map[string]int{}, notes: map[string]bool{}, opaque: map[string]bool{}, fuel: map[string]int{}, assumed: map[string]bool{}, deps: map[string]bool{}, anchored: map[int]bool{}}
 	if u.contract != nil {
 		for _, o := range u.contract.Opaque {
 			u.opaque[o] = true
@@ -638,6 +639,14 @@ func (v *Verifier) verifyFunctionFixed(fn *ssa.Function, unrollAll int, fixLen m
 	// late-registered global axioms (globals discovered during execution) are appended at the end
 	fr.run(st)
 	fr.finish()
+	// every proof-decomposition assertion must have found its anchor call
+	if u.contract != nil && unrollAll == 0 {
+		for k, a := range u.contract.Asserts {
+			if !u.anchored[k] {
+				u.errs = append(u.errs, fmt.Sprintf("%s: assert after %s#%d: the anchor call does not exist (or is unreachable) in %s (contract.attach)", a.C.Where, a.Callee, a.Ord, u.name))
+			}
+		}
+	}
 	if len(v.axioms) > nAx {
 		extra := v.axioms[nAx:]
 		for _, o := range u.obls {
